@@ -18,6 +18,14 @@ the three raw functions (model arrays), psd_mesoporous (session) — and judged 
 entry with the increments of the REPORTED widths (exact in floating point at any spacing) and with the independent widths under a
 tolerance that grows with the measured conditioning eps·(w_i + w_{i+1})/Δw_i of the increment; the ℚ models return their exact width
 increments so that the distribution is compared as `Δdist·Δw` against the volume scale at any spacing.
+Stored representation at the entry point (Props/C16/Session.lean, theorems kelvinRadius_mul_temperature / kelvinRadius_stored_scale_ne /
+kelvinRadius_neg_of_stored_neg): the isotherms of the session store their temperature in K or in °C (the same physical temperature; 273.15 K is
+the stored number 0) and are judged by the same independent Kelvin equation in kelvin; every other analysis is repeated on a TWIN — the same
+physical isotherm stored in another representation (temperature K/°C, pressure relative / relative% / absolute in Pa, kPa, bar, mbar, atm, torr
+through the saturation pressure (CoolProp for built-ins, a literal for the user-defined adsorbates), loading mmol, mol, kmol, cm3(STP), mg, g, kg,
+liquid cm3, material g / kg / mg), either constructed from numbers converted by the harness or constructed like the original and converted by
+the isotherm's own convert_* methods — and must give the same refusal, the same points, the same widths, and volumes / areas / cumulative
+curve / distribution that differ by the material unit only.
 """
 import math
 import sys
@@ -43,6 +51,11 @@ STD_CURVES = {"SiO2 Jaroniec/Kruk/Olivier": ("LiChrospher Si-1000 silica.csv", "
 MONOLAYER_NM = 0.354                  # thickness of one nitrogen layer (t = n / n_m * 0.354 nm)
 USER_NAMES = ["pgv-gas-a", "pgv-gas-b"]
 USER_TEMPS = [77.355, 87.3]
+# stored representations of one physical isotherm (unit tables as documented by the library: factor = size of the unit in the SI-like base unit)
+U_PRESSURE = {"Pa": 1.0, "kPa": 1e3, "bar": 1e5, "mbar": 100.0, "atm": 101325.0, "torr": 133.322}
+U_MOLAR = {"mmol": 1e-3, "mol": 1.0, "kmol": 1e3, "cm3(STP)": 4.461e-5}
+U_MASS = {"mg": 1e-3, "g": 1.0, "kg": 1e3}
+CELSIUS = 273.15
 
 
 def kelvin_si(p, factor, T, rho, M, gamma):
@@ -319,8 +332,9 @@ def run(ck):
 
     def create(name, store):
         pr = rand_props()
-        obj = Adsorbate(name, store=store, **dict(pr))
-        objs.append({"obj": obj, "name": name, "props": pr})
+        p0 = logu(rng, 2e3, 5e6)                                # Pa, a literal of the object (no thermodynamic backend); not part of the model's property set
+        obj = Adsorbate(name, store=store, saturation_pressure=p0, **dict(pr))
+        objs.append({"obj": obj, "name": name, "props": pr, "p0": p0})
         oid = len(objs) - 1
         was = name in registered
         if store and not was:
@@ -424,7 +438,7 @@ def run(ck):
             return (ps[0], rng.choice([None, ps[-1], ps[j], rng.uniform(0.5, 0.999)])), "lower limit on the first reading"
         return (ps[i], ps[i]), "both limits on the same reading"
 
-    def build_iso(ads_name, T, data, basis, M):
+    def build_iso(ads_name, T, data, basis, M, t_unit="K"):
         n = len(data["ps"])
         pa, la = np.array(data["ps"]), np.array(data["load"])
         if basis == "mass":
@@ -436,9 +450,145 @@ def run(ck):
             br = [0] * n + [1] * n
         else:
             p_all, l_all, br = pa, la, [0] * n
-        return pg.PointIsotherm(pressure=p_all, loading=l_all, branch=br, material=rng.choice(["pgv-synth", "pgv-synth", "pgv-other"]), adsorbate=ads_name, temperature=T,
+        return pg.PointIsotherm(pressure=p_all, loading=l_all, branch=br, material=rng.choice(["pgv-synth", "pgv-synth", "pgv-other"]), adsorbate=ads_name,
                                 pressure_mode="relative", pressure_unit=None, loading_basis=basis, loading_unit="mmol" if basis == "molar" else "mg",
-                                material_basis="mass", material_unit="g", temperature_unit="K")
+                                material_basis="mass", material_unit="g", **stored_temperature(T, t_unit))
+
+    def stored_temperature(T, t_unit):
+        """the same physical temperature as the number the isotherm stores in `t_unit`"""
+        return {"temperature": T if t_unit == "K" else T - CELSIUS, "temperature_unit": t_unit}
+
+    def gen_representation(base_basis, main_t_unit):
+        """another stored representation of the same physical isotherm: every dimension changes with probability 1/2, at least one does"""
+        while True:
+            rep = {"t_unit": rng.choice(["K", "°C"]),
+                   "pressure": rng.choice([("relative", None)] * 3 + [("relative%", None)] + [("absolute", u) for u in rng.sample(sorted(U_PRESSURE), 2)]),
+                   "loading": rng.choice([(base_basis, "mmol" if base_basis == "molar" else "mg")] * 3 + [("molar", u) for u in U_MOLAR] + [("mass", u) for u in U_MASS] + [("volume_liquid", "cm3")]),
+                   "material_unit": rng.choice(["g", "g", "kg", "mg"])}
+            only = rng.choice([None, None, None, "temperature", "temperature", "pressure", "loading", "material"])     # often ONE dimension alone, so that a failure names it
+            if only:
+                base = {"t_unit": main_t_unit, "pressure": ("relative", None), "loading": (base_basis, "mmol" if base_basis == "molar" else "mg"), "material_unit": "g"}
+                keep = {"temperature": "t_unit", "pressure": "pressure", "loading": "loading", "material": "material_unit"}[only]
+                rep = {k: (v if k == keep else base[k]) for k, v in rep.items()}
+                if only == "temperature":
+                    rep["t_unit"] = "°C" if main_t_unit == "K" else "K"
+            changed = [k for k, same in (("temperature", rep["t_unit"] == main_t_unit), ("pressure", rep["pressure"] == ("relative", None)),
+                                         ("loading", rep["loading"] == (base_basis, "mmol" if base_basis == "molar" else "mg")), ("material", rep["material_unit"] == "g")) if not same]
+            if changed:
+                rep["changed"] = changed
+                rep["route"] = rng.choice(["constructed", "constructed", "converted"])
+                return rep
+
+    def build_twin(ads_name, T, data, basis, stored, M, rho, p0, rep):
+        """the isotherm `stored` (mmol/g or mg/g at relative pressure, K) once more, stored as `rep` says: either constructed from numbers
+        converted HERE (independent unit arithmetic), or constructed like the original and converted by the isotherm's own convert_* methods"""
+        n = len(data["ps"])
+        ps, amounts = np.array(data["ps"]), np.array(stored)
+        (pm, pu), (lb, lu), mu, tu = rep["pressure"], rep["loading"], rep["material_unit"], rep["t_unit"]
+        converted = rep["route"] == "converted"
+        if not converted:
+            mol = amounts * 1e-3 / (M if basis == "mass" else 1.0)                       # mol/g
+            amounts = (mol / U_MOLAR[lu] if lb == "molar" else mol * M / U_MASS[lu] if lb == "mass" else mol * M / rho) * U_MASS[mu]
+            ps = ps * 100 if pm == "relative%" else ps * p0 / U_PRESSURE[pu] if pm == "absolute" else ps
+        if data["branch"] == "des":
+            p_all, l_all, br = np.concatenate([ps, ps[::-1]]), np.concatenate([amounts * 0.9, amounts[::-1]]), [0] * n + [1] * n
+        else:
+            p_all, l_all, br = ps, amounts, [0] * n
+        if not converted:
+            return pg.PointIsotherm(pressure=p_all, loading=l_all, branch=br, material="pgv-twin", adsorbate=ads_name, pressure_mode=pm, pressure_unit=pu,
+                                    loading_basis=lb, loading_unit=lu, material_basis="mass", material_unit=mu, **stored_temperature(T, tu))
+        twin = pg.PointIsotherm(pressure=p_all, loading=l_all, branch=br, material="pgv-twin", adsorbate=ads_name, temperature=T, temperature_unit="K", pressure_mode="relative", pressure_unit=None,
+                                loading_basis=basis, loading_unit="mmol" if basis == "molar" else "mg", material_basis="mass", material_unit="g")
+        steps = [k for k, same in (("temperature", tu == "K"), ("pressure", (pm, pu) == ("relative", None)), ("loading", (lb, lu) == (basis, "mmol" if basis == "molar" else "mg")), ("material", mu == "g")) if not same]
+        rng.shuffle(steps)
+        for k in steps:
+            if k == "temperature":
+                twin.convert_temperature(unit_to=tu)
+            elif k == "pressure":
+                twin.convert_pressure(mode_to=pm, unit_to=pu)
+            elif k == "loading":
+                twin.convert_loading(basis_to=lb, unit_to=lu)
+            else:
+                twin.convert_material(basis_to="mass", unit_to=mu)
+        return twin
+
+    def twin_oracle(i, iso, outcome, r, sig, detail, call, ads_name, T, data, basis, stored, M, rho, p0, tie, close, main_t_unit):
+        """representation invariance of the entry point: the SAME physical isotherm stored in other units (temperature in °C, absolute
+        pressure in any unit / relative %, loading in other molar / mass / liquid-volume units, material in kg / mg) gives the same
+        refusal, the same points, the same widths, and volumes that differ by the material unit only"""
+        rep = gen_representation(basis, main_t_unit)
+        what = "+".join(rep["changed"])
+        tsig = {**sig, "stored_representation_changed": what, "route": rep["route"]}
+        tdet = {**detail, "twin_stored_representation": {"temperature_unit": rep["t_unit"], "pressure": list(rep["pressure"]), "loading": list(rep["loading"]), "material_unit": rep["material_unit"],
+                                                        "built": rep["route"], "saturation_pressure_Pa": p0}}
+        try:
+            twin = build_twin(ads_name, T, data, basis, stored, M, rho, p0, rep)
+        except Exception as e:  # noqa
+            ck.fail_case({**tsig, "clause": "the isotherm cannot be stored in this representation", "error": type(e).__name__}, {**tdet, "error": repr(e)[:200]})
+            return
+        ck.count(("twin", what, rep["route"], outcome, i), bucket="oracle:twin representation:" + what + (":" + rep["route"] if rep["route"] != "constructed" else ""))
+        if relerr(twin.temperature, T) > 1e-12:
+            ck.fail_case({**tsig, "clause": "isotherm.temperature of the twin is not the physical temperature in kelvin"}, {**tdet, "got": float(twin.temperature), "expected": T})
+            return
+        p_moved = "pressure" in rep["changed"] and (tie or close)         # rounding of p -> p·p0/unit -> p may move a reading across a limit it sits on
+        try:
+            r2 = call(twin)
+        except CalculationError:
+            if outcome == "ok" and not p_moved:
+                ck.fail_case({**tsig, "clause": "the same isotherm in another stored representation is refused"}, tdet)
+            return
+        except Exception as e:  # noqa
+            ck.fail_case({**tsig, "clause": "psd_mesoporous raises a non-pyGAPS error on another stored representation", "error": type(e).__name__}, {**tdet, "error": repr(e)[:200]})
+            return
+        if outcome != "ok":
+            if not p_moved:
+                ck.fail_case({**tsig, "clause": "a refused isotherm is analysed in another stored representation"}, tdet)
+            return
+        lim1, lim2 = (int(r["limits"][0]), int(r["limits"][1])), (int(r2["limits"][0]), int(r2["limits"][1]))
+        if lim1 != lim2:
+            if not p_moved:
+                ck.fail_case({**tsig, "clause": "points used depend on the stored representation"}, {**tdet, "used_twin": list(lim2)})
+            return
+        pu_ = data["ps"][lim1[0]:lim1[1] + 1]
+        f = U_MASS[rep["material_unit"]]                                   # per g -> per stored material unit
+        arr = lambda res, k, g=1.0: np.asarray(res[k], dtype=float) / g    # noqa
+        w1, w2 = arr(r, "pore_widths"), arr(r2, "pore_widths")
+        if len(w1) != len(w2):
+            ck.fail_case({**tsig, "clause": "result arrays depend on the stored representation"}, {**tdet, "lengths": [len(w1), len(w2)]})
+            return
+        # a relative pressure that went through p·p0/unit and back carries one or two roundings: ln p moves by ~eps / |ln p|
+        wtol = [1e-9 + 16 * EPS / abs(math.log(p)) for p in pu_[:len(w1)]]
+        e = max(relerr(x, y) / t for x, y, t in zip(w2, w1, wtol))
+        note("twin widths (units of the tolerance)", e)
+        if not e <= 1.0:
+            j = max(range(len(w1)), key=lambda j: relerr(w2[j], w1[j]) / wtol[j])
+            ck.fail_case({**tsig, "clause": "pore widths depend on the stored representation of the isotherm"},
+                         {**tdet, "interval": j, "width_twin": float(w2[j]), "width": float(w1[j]), "widths_twin": w2[:5].tolist(), "widths": w1[:5].tolist(),
+                          "twin_temperature_stored": float(twin._temperature) if hasattr(twin, "_temperature") else None})
+            return
+        vtol = 1e-8 + 64 * max(t - 1e-9 for t in wtol)
+        for k, g in (("pore_volumes", f), ("pore_volume_cumulative", f), ("pore_areas", f)):
+            x1, x2 = arr(r, k), arr(r2, k, g)
+            sc = max(float(np.max(np.abs(x1))), 1e-300)
+            if close and k != "pore_volume_cumulative" and "pressure" in rep["changed"]:
+                continue                                                    # increments of near-coincident radii are not comparable after a round trip of the pressures
+            e = float(np.max(np.abs(x1 - x2))) / sc
+            note("twin " + k, e)
+            if not e <= vtol:
+                j = int(np.argmax(np.abs(x1 - x2)))
+                ck.fail_case({**tsig, "clause": k + " depend on the stored representation of the isotherm (beyond the material unit)"},
+                             {**tdet, "interval": j, "twin_per_g": float(x2[j]), "original_per_g": float(x1[j]), "material_unit_factor": g})
+                return
+        if not close:
+            # distribution [cm3 / material unit / nm], relative to its largest entry, conditioning of the width increments allowed for
+            d1, d2 = arr(r, "pore_distribution"), arr(r2, "pore_distribution", f)
+            cond = cond_terms(list(w1) + [float(w1[-1])])[:len(d1)] if len(w1) > 1 else [0.0] * len(d1)
+            sc = max(float(np.max(np.abs(d1))), 1e-300)
+            bad = [j for j in range(len(d1) - 1) if not abs(d1[j] - d2[j]) <= (vtol + COND * cond[j] + 64 * (wtol[j] - 1e-9) * (abs(w1[j]) + abs(w1[j + 1])) / max(abs(w1[j + 1] - w1[j]), 1e-300)) * max(sc, abs(d1[j]))]
+            if bad:
+                j = bad[0]
+                ck.fail_case({**tsig, "clause": "pore distribution depends on the stored representation of the isotherm (beyond the material unit)"},
+                             {**tdet, "interval": j, "twin_per_g": float(d2[j]), "original_per_g": float(d1[j])})
 
     for i in range(N):
         # ---------------------------------------------------------------- which isotherm: re-analysis of a kept one, a built-in adsorbate, a user-defined one
@@ -447,6 +597,7 @@ def run(ck):
         if kept and u < 0.2:
             k = rng.choice(kept)
             iso, oid, iso_idx, data, T, ads_name, basis, stored = k["iso"], k["oid"], k["iso_idx"], k["data"], k["T"], k["name"], k["basis"], k["stored"]
+            t_unit = k["t_unit"]
             if oid is not None and rng.random() < 0.6:
                 edit(oid)                                                   # the object the old isotherm holds changes under it
                 action = "kept isotherm, its adsorbate edited in place since"
@@ -462,7 +613,7 @@ def run(ck):
         else:
             kind, iso_idx = "user", None
             ads_name = rng.choice(USER_NAMES)
-            T = rng.choice(USER_TEMPS + USER_TEMPS + [round(rng.uniform(60, 320), 2)])
+            T = rng.choice(USER_TEMPS + USER_TEMPS + [round(rng.uniform(60, 320), 2), CELSIUS])      # 273.15 K: the stored number is 0 in °C
             if ads_name not in registered:
                 create(ads_name, True)
                 action = "adsorbate created and stored"
@@ -488,17 +639,18 @@ def run(ck):
         if kind == "builtin":
             ads = Adsorbate.find(ads_name)
             try:
-                M, rho, gamma = ads.molar_mass(), ads.liquid_density(T), ads.surface_tension(T)
+                M, rho, gamma, p0 = ads.molar_mass(), ads.liquid_density(T), ads.surface_tension(T), ads.saturation_pressure(T)
             except Exception:
                 continue
         else:
             pr = objs[oid]["props"]
-            M, rho, gamma = pr["molar_mass"], pr["liquid_density"], pr["surface_tension"]
+            M, rho, gamma, p0 = pr["molar_mass"], pr["liquid_density"], pr["surface_tension"], objs[oid]["p0"]
         ps, load, branch, step_case, j0 = data["ps"], data["load"], data["branch"], data["step_case"], data["j0"]
         n = len(ps)
         if iso is None:
+            t_unit = "°C" if rng.random() < 0.3 else "K"                    # the number the isotherm stores for the same physical temperature
             try:
-                iso = build_iso(ads_name, T, data, basis, M)
+                iso = build_iso(ads_name, T, data, basis, M, t_unit)
             except Exception as e:  # noqa
                 ck.broken.append({"step": "harness: building the isotherm", "what": repr(e)[:300]})
                 continue
@@ -513,7 +665,9 @@ def run(ck):
                     continue
             stored = [x * M for x in load] if basis == "mass" else list(load)         # what the isotherm holds (mg/g or mmol/g): fixed from now on
             if rng.random() < 0.35 and len(kept) < 12:
-                kept.append({"iso": iso, "oid": oid, "iso_idx": iso_idx, "data": data, "T": T, "name": ads_name, "basis": basis, "stored": stored})
+                kept.append({"iso": iso, "oid": oid, "iso_idx": iso_idx, "data": data, "T": T, "name": ads_name, "basis": basis, "stored": stored, "t_unit": t_unit})
+        if t_unit != "K":
+            ck.count(("stored-T", t_unit, i), nontrivial=False, bucket="session:temperature stored in " + t_unit + (" (the number 0)" if T == CELSIUS else ""))
         ck.count(("session", action, i), nontrivial=False, bucket="session:" + kind + ":" + action)
 
         # ---------------------------------------------------------------- the call
@@ -562,7 +716,7 @@ def run(ck):
             ck.count(("tie", tie, i), nontrivial=False, bucket="limits:" + tie)
         model_ok = kind == "user" and kname != "user callable" and n <= 40 and (i % 2 == 0 or bool(tie) or bool(close))
         win_line = f"win meso {'N' if lim is None else 'L'} {qp(None if lim is None else lim[0])} {qp(None if lim is None else lim[1])} {qplist(ps)} []"
-        detail = {"adsorbate": ads_name, "T": T, "pressure": ps, "loading_mmol_g_when_the_isotherm_was_built": load, "loading_basis_of_the_isotherm": basis, "amounts_held_by_the_isotherm": stored, "branch": branch, "meniscus": men, "limits": lim,
+        detail = {"adsorbate": ads_name, "T": T, "temperature_as_stored": stored_temperature(T, t_unit), "pressure": ps, "loading_mmol_g_when_the_isotherm_was_built": load, "loading_basis_of_the_isotherm": basis, "amounts_held_by_the_isotherm": stored, "branch": branch, "meniscus": men, "limits": lim,
                   "kelvin_model": kname, "session_step": i, "what_happened_before_this_call": action, **tdesc, **kdesc}
         if tie:
             detail["limits_coincide_with_readings"] = tie
@@ -578,9 +732,15 @@ def run(ck):
             return (f"analyse {iso_idx} {method} {geo} {q(FACTOR[mg])} {'J' if kname == 'Kelvin-KJS' else 'K'} {'N' if lim is None else 'L'} "
                     f"{qp(None if lim is None else lim[0])} {qp(None if lim is None else lim[1])} {qlist(thick_arr)} {qlist(lnp)}")
 
+        call = lambda x: pgc.psd_mesoporous(x, psd_model=method, pore_geometry=geo, meniscus_geometry=men, branch=branch, thickness_model=targ, kelvin_model=karg, p_limits=lim)   # noqa
+        # the twin is built BY NAME: only when the name still resolves to the object this isotherm holds
+        do_twin = rng.random() < 0.5 and (kind == "builtin" or registered.get(ads_name) == oid)
+        twin_args = (ads_name, T, data, basis, stored, M, rho, p0, tie, close, t_unit)
         try:
-            r = pgc.psd_mesoporous(iso, psd_model=method, pore_geometry=geo, meniscus_geometry=men, branch=branch, thickness_model=targ, kelvin_model=karg, p_limits=lim)
+            r = call(iso)
         except CalculationError:
+            if do_twin:
+                twin_oracle(i, iso, "refused", None, sig, detail, call, *twin_args)
             if len(sel_strict) >= 3:
                 ck.fail_case({**sig, "clause": "refused although three or more points lie strictly inside the limits"}, detail)
             else:
@@ -669,6 +829,8 @@ def run(ck):
                 if nzd != [k] or int(np.argmax(dist)) != k:
                     ck.fail_case({**sig, "clause": "single condensation step does not give a single peak of the distribution"},
                                  {**detail, "nonzero_entries_of_the_distribution": nzd, "largest_entry": int(np.argmax(dist)), "expected": [k], "distribution_there": float(dist[k])})
+        if do_twin:
+            twin_oracle(i, iso, "ok", r, sig, detail, call, *twin_args)
         # the wrapper against the ℚ model on the same arrays (correspondence of the whole pipeline)
         if (i % 3 == 0 or bool(close)) and m <= 40 and kname == "Kelvin":
             thick_arr = [tfun(p) for p in pu]
@@ -764,9 +926,12 @@ def run(ck):
     ck.cov["rule"] = ("ONE interpreter session of analyses: random strictly increasing relative-pressure grids (6-80 points; readings exactly on the default limits; consecutive readings 1e-12 … 1e-4 relative "
                       "apart with and without uptake between them) with non-decreasing loading incl. single-step isotherms (the step also between two near-coincident readings; data re-used between consecutive "
                       "analyses), N2/Ar/CO2 and user-defined adsorbate property sets under two shared names (created, re-registered under the same name, edited in place, second object of the same name, "
-                      "isotherms kept and re-analysed after their adsorbate changed; molar and mass loading bases; shared temperatures and material names), 3 methods x admissible pore geometries x "
+                      "isotherms kept and re-analysed after their adsorbate changed; molar and mass loading bases; shared temperatures and material names; temperature stored in K or °C incl. the stored number 0), "
+                      "every other analysis repeated on a twin of the isotherm in another stored representation (temperature unit, pressure mode / unit, loading basis / unit, material unit; constructed or converted in place), 3 methods x admissible pore geometries x "
                       "explicit or inferred meniscus geometry x zero / Halsey / Harkins-Jura / the two tabulated standard curves / user thickness callables (same __name__) x Kelvin / Kelvin-KJS / user Kelvin "
                       "callables (same __name__), ads and des branches, any pressure limits incl. limits EXACTLY on readings (lower, upper, both, first / last, neighbouring readings, the same reading twice); "
                       "recurrences also on 2-16 point arrays with arbitrary model arrays incl. near-coincident values, with the property clauses on the raw functions; tabulated curves against the data files")
     ck.assumptions += ["CoolProp liquid density / surface tension of the built-in adsorbates are inputs",
-                       "user-defined property sets are self-consistent (liquid_molar_density = liquid_density / molar_mass)"]
+                       "user-defined property sets are self-consistent (liquid_molar_density = liquid_density / molar_mass)",
+                       "the saturation pressure of a built-in adsorbate (CoolProp) is an input of the absolute-pressure twins; the literal saturation_pressure of a user-defined adsorbate is in Pa",
+                       "unit sizes as documented by the library (cm3(STP) = 4.461e-5 mol, torr = 133.322 Pa)"]
